@@ -263,7 +263,7 @@ def parse_diags(stderr, spans):
 
 def _rustc_cmd(src, out, run, so, deps, cfgs=()):
     cmd = ['rustc', '--edition', '2021', '--error-format=json', '-C', 'debuginfo=0', '-C', 'opt-level=0',
-           '--cap-lints', 'warn', '-W', 'unused', '--extern', 'educe=' + so, '-L', 'dependency=' + deps]
+           '-W', 'unused', '--extern', 'educe=' + so, '-L', 'dependency=' + deps]
     for c in cfgs:
         cmd += ['--cfg', c]
     if run:
